@@ -212,6 +212,10 @@ func genBasic(r *vh.Rand) string {
 		h = r.Pick("basic ", "BASIC ", "bAsIc ", "Basic\t", "Basic  ", " Basic ", "Basic", "Digest ", "BasicX") + cred
 	case 3: // no colon
 		h = "Basic " + base64.StdEncoding.EncodeToString([]byte(u+pw))
+	case 8, 9: // other SPELLINGS of the same credentials: what Go's non-strict StdEncoding still decodes, and what not
+		h = "Basic " + r.Pick(cred[:len(cred)/2]+"\r\n"+cred[len(cred)/2:], cred[:1]+"\n"+cred[1:], cred+"\r\n", "\n"+cred,
+			cred[:len(cred)/2]+" "+cred[len(cred)/2:], cred[:len(cred)/2]+"\t"+cred[len(cred)/2:], b64TrailingBits(cred),
+			strings.TrimRight(cred, "="), cred+"=", strings.NewReplacer("+", "-", "/", "_").Replace(cred), cred+"QUJD", cred+"!", " "+cred)
 	case 4: // other base64 alphabets / padding damage
 		h = "Basic " + r.Pick(strings.TrimRight(cred, "="), cred+"=", cred+"==", base64.URLEncoding.EncodeToString([]byte(u+":"+pw+"\xfb\xff")),
 			cred+"\n", "\r\n"+cred, cred+" ", cred[:len(cred)/2]+"\n"+cred[len(cred)/2:], cred+"A", "=", "====", "A", "AA==", "AAA=", "Og==", "!"+cred)
@@ -232,4 +236,16 @@ func genRealm(r *vh.Rand) string {
 		return bRealmDirty[r.Intn(len(bRealmDirty))]
 	}
 	return bRealm[r.Intn(len(bRealm))]
+}
+
+// b64TrailingBits sets unused low bits in the last non-padding character (accepted by a non-strict decoder).
+func b64TrailingBits(c string) string {
+	const std = "ABCDEFGHIJKLMNOPQRSTUVWXYZabcdefghijklmnopqrstuvwxyz0123456789+/"
+	n := strings.Count(c, "=")
+	if n == 0 || len(c) < 4 {
+		return c + "="
+	}
+	i := len(c) - n - 1
+	v := strings.IndexByte(std, c[i])
+	return c[:i] + string(std[v|1]) + c[i+1:]
 }
